@@ -428,7 +428,26 @@ let () =
                          stat "c12_f64_exact_checked" 1;
                          let want = if Z.numbits exact > 1024 then infinity else ex in
                          if fv <> want then
-                           fail p.pstep "C12" "prop" (Printf.sprintf "sat_count(%d) as f64 = %h, correctly rounded exact count %h (%s)" vars fv want (Z.to_string exact)))
+                           fail p.pstep "C12" "prop" (Printf.sprintf "sat_count(%d) as f64 = %h, correctly rounded exact count %h (%s)" vars fv want (Z.to_string exact))
+                         else (
+                           (* the extracted model of sat_count::<F64> (coq/DD/SatCountF64.v: the counting recursion of
+                              DD/SatCount.v with its in-call cache over Flocq's binary64, MIN_EXP scaling included) run
+                              on the snapshot must return the same bits, and so must the extracted specification
+                              f64_of_N(exact count); with at most 53 levels the value does not depend on the shape of
+                              the diagram, so a reordering between the query and the snapshot does not matter *)
+                           match List.assoc_opt (slot_of a) ps.handles with
+                           | Some e when not (List.mem (slot_of a) p.pdst) ->
+                             stat "c12_f64_model_replayed" 1;
+                             let hex z = Z.format "%016x" (z_of_mz z) in
+                             let spec = hex (Model.f64_count_bits (n_of_z exact)) in
+                             (match Model.sat_f64_cached_bits true ps.snap (nat vars) e with
+                              | Some mb ->
+                                if hex mb <> got then
+                                  fail p.pstep "C12" "corr" (Printf.sprintf "sat_count(%d) as f64 = %s, the extracted model computes %s" vars got (hex mb))
+                                else if spec <> got then
+                                  fail p.pstep "C12" "corr" (Printf.sprintf "sat_count(%d) as f64 = %s, extracted f64_of_N(exact count) = %s" vars got spec)
+                              | None -> fail p.pstep "C12" "corr" "the extracted model of sat_count::<F64> fails on the snapshot")
+                           | _ -> ()))
                        else if Z.numbits exact <= 53 && fv <> ex then
                          fail p.pstep "C12" "prop" (Printf.sprintf "sat_count(%d) as f64 = %h, exact %s" vars fv (Z.to_string exact))
                        else if abs_float (fv -. ex) > 1e-9 *. abs_float ex then
